@@ -260,11 +260,11 @@ pub fn run(ctx: &Ctx) -> usize {
 	if run_enum(ctx, "gate", GATE.len(), |i| json!({"v": [GATE[i].0, GATE[i].1, GATE[i].2]}), |i| version_gate(ctx, GATE[i], true)).is_some() {
 		violations += 1;
 	}
-	if run_dna(ctx, "gate_dna", ctx.n(4000, 400_000), 8, |dna, counting| version_gate(ctx, gate_version(dna), counting)).is_some() {
+	if run_dna(ctx, "gate_dna", ctx.n(20_000, 2_000_000), 8, |dna, counting| version_gate(ctx, gate_version(dna), counting)).is_some() {
 		violations += 1;
 	}
 	let cfg = cfg(ctx);
-	if run_dna(ctx, "dna", ctx.n(2000, 60_000), dna_max(ctx), |dna, counting| check(ctx, &gen_case(dna, &cfg), "dna", counting)).is_some() {
+	if run_dna(ctx, "dna", ctx.n(6_000, 300_000), dna_max(ctx), |dna, counting| check(ctx, &gen_case(dna, &cfg), "dna", counting)).is_some() {
 		violations += 1;
 	}
 	violations
